@@ -389,6 +389,11 @@ package stream
 //@ ensures.debounce_rearm[C11,C13] debounce ==> calls("time.(*Timer).Stop") == 1 && arg("time.(*Timer).Stop", 0, 0) == old(s.rebalanceTimer) && (ret("time.(*Timer).Stop", 0) ==> calls("time.(*Timer).Reset") == 1 && arg("time.(*Timer).Reset", 0, d) == delay && calls(time.AfterFunc) == 0 && s.rebalanceTimer == old(s.rebalanceTimer)) && (!ret("time.(*Timer).Stop", 0) ==> calls("time.(*Timer).Reset") == 0 && calls(time.AfterFunc) == 1 && arg(time.AfterFunc, 0, d) == delay && isbound(arg(time.AfterFunc, 0, f), "stream.(*stream).Rebalance") && boundrecv(arg(time.AfterFunc, 0, f), "stream.(*stream).Rebalance") == s && s.rebalanceTimer == ret(time.AfterFunc, 0))
 //@ ensures.start_once[C11,C13] !debounce ==> calls(models.EventHandler.BeforeRebalanceStart) == 1 && calls(models.EventHandler.AfterRebalanceStart) == 1 && dcalls("stream.(*stream).Close") == ite(old(s.balancing), 0, 1) && s.balancing && held(s.rebalanceLock)
 //@ ensures.start_close[C11,C13] !debounce && !old(s.balancing) ==> darg("stream.(*stream).Close", 0, closeWithCancel) == false && ts(models.EventHandler.BeforeRebalanceStart, 0) < ts("stream.(*stream).Close", 0) && ts("stream.(*stream).Close", 0) < ts(models.EventHandler.AfterRebalanceStart, 0)
+//@ ensures.window[C11] s.balancing
+//@ ensures.start_visible[C11] !debounce ==> calls(models.EventHandler.BeforeRebalanceStart) == 1 && calls(models.EventHandler.AfterRebalanceStart) == 1
+//@ ensures.debounce_visible[C11] debounce ==> calls(models.EventHandler.BeforeRebalanceStart) == 0 && calls(models.EventHandler.AfterRebalanceStart) == 0 && calls(models.EventHandler.BeforeStreamStop) == 0 && calls("time.(*Timer).Stop") == 1 && calls("time.(*Timer).Reset") + calls(time.AfterFunc) == 1
+//@ ensures.timer_armed[C11] !debounce ==> s.rebalanceTimer != nil
+//@ ensures.debounce_keeps_timer[C11] debounce ==> s.rebalanceTimer != nil
 //@ ensures.start_timer[C11,C13] !debounce ==> calls(time.AfterFunc) == 1 && arg(time.AfterFunc, 0, d) == ite(s.config.Dcp.Group.Membership.Type == "dynamic", 0, delay) && isbound(arg(time.AfterFunc, 0, f), "stream.(*stream).rebalance") && boundrecv(arg(time.AfterFunc, 0, f), "stream.(*stream).rebalance") == s && s.rebalanceTimer == ret(time.AfterFunc, 0) && ts(models.EventHandler.AfterRebalanceStart, 0) < ts(time.AfterFunc, 0)
 //@ modifies s.balancing, s.rebalanceTimer, mutex(s.rebalanceLock), s.closeWithCancel, s.observers, s.offsets, s.dirtyOffsets, s.open, chan(s.finishStreamWithCloseCh), calls(models.EventHandler.BeforeRebalanceStart), calls(models.EventHandler.AfterRebalanceStart), calls(models.EventHandler.BeforeStreamStop), calls(models.EventHandler.AfterStreamStop), calls("stream.(*stream).Close"), calls("stream.(*stream).closeAllStreams"), calls(couchbase.Client.CloseStream), calls("go:stream.(*stream).closeAllStreams$1$1"), calls(couchbase.Observer.Close), calls(couchbase.Observer.CloseEnd), calls(couchbase.RollbackMitigation.Stop), calls(stream.Checkpoint.StopSchedule), calls("time.(*Timer).Stop"), calls("time.(*Timer).Reset"), calls(time.AfterFunc), calls("wrapper.(*ConcurrentSwissMap).Range")
 
@@ -426,6 +431,7 @@ package stream
 //@ ensures.resume[C02,C11] calls(stream.Checkpoint.Load) == 1 && s.offsets == ret(stream.Checkpoint.Load, 0, 0) && s.dirtyOffsets == ret(stream.Checkpoint.Load, 0, 1) && s.anyDirtyOffset == ret(stream.Checkpoint.Load, 0, 2)
 //@ ensures.observers[C03,C12] s.observers != nil && fresh(s.observers) && forall vb uint16 :: has(s.offsets, vb) ==> has(s.observers, vb) && s.observers[vb] != nil
 //@ ensures.streams[C12,C15] dcalls("stream.(*stream).openAllStreams") == 1 && darg("stream.(*stream).openAllStreams", 0, vbIDs) == ids
+//@ ensures.visible[C11] calls(models.EventHandler.BeforeStreamStart) == 1 && calls(models.EventHandler.AfterStreamStart) == 1 && s.open
 //@ ensures.bracket[C11] calls(models.EventHandler.BeforeStreamStart) == 1 && calls(models.EventHandler.AfterStreamStart) == 1 && ts(models.EventHandler.BeforeStreamStart, 0) < ts(stream.VBucketDiscovery.Get, 0) && ts(stream.VBucketDiscovery.Get, 0) < ts(stream.Checkpoint.Load, 0) && ts(stream.Checkpoint.Load, 0) < ts("stream.(*stream).openAllStreams", 0) && ts("stream.(*stream).openAllStreams", 0) < ts(models.EventHandler.AfterStreamStart, 0)
 //@ ensures.session[C11,C12] s.open && !s.streamFinishedWithCloseCh && !s.streamFinishedWithEndEventCh && calls("go:stream.(*stream).wait") == 1 && arg("go:stream.(*stream).wait", 0, s) == s && dcalls(select.case) == 2
 //@ modifies s.streamFinishedWithCloseCh, s.streamFinishedWithEndEventCh, s.vbIDRange, s.rollbackMitigation, s.config.RollbackMitigation.Disabled, atomic(s.activeStreams), s.checkpoint, s.offsets, s.dirtyOffsets, s.anyDirtyOffset, s.observers, s.open, chan(s.finishStreamWithCloseCh), chan(s.finishStreamWithEndEventCh), calls(select.case), calls(models.EventHandler.BeforeStreamStart), calls(models.EventHandler.AfterStreamStart), calls(stream.VBucketDiscovery.Get), calls(stream.Checkpoint.Load), calls("stream.(*stream).openAllStreams"), calls("go:stream.(*stream).openAllStreams$1"), calls("go:stream.(*stream).wait"), calls(stream.Checkpoint.StartSchedule), calls(couchbase.RollbackMitigation.Start), calls("wrapper.(*ConcurrentSwissMap).Range")
@@ -436,6 +442,8 @@ package stream
 //@ requires s != nil && s.eventHandler != nil && s.vBucketDiscovery != nil && s.config != nil && s.bucketInfo != nil && s.client != nil && s.metadata != nil && s.metric != nil && s.finishStreamWithCloseCh != nil && s.finishStreamWithEndEventCh != nil && s.finishStreamWithCloseCh != s.finishStreamWithEndEventCh && logger.Log != nil
 //@ ensures.reopen_once[C11] dcalls("stream.(*stream).Open") == 1 && calls(models.EventHandler.BeforeRebalanceEnd) == 1 && calls(models.EventHandler.AfterRebalanceEnd) == 1 && ts(models.EventHandler.BeforeRebalanceEnd, 0) < ts("stream.(*stream).Open", 0) && ts("stream.(*stream).Open", 0) < ts(models.EventHandler.AfterRebalanceEnd, 0)
 //@ ensures.done[C11] !s.balancing && !held(s.rebalanceLock)
+//@ ensures.end_visible[C11] calls(models.EventHandler.BeforeRebalanceEnd) == 1 && calls(models.EventHandler.AfterRebalanceEnd) == 1
+//@ ensures.reopened_visible[C11] calls(models.EventHandler.BeforeStreamStart) == 1 && calls(models.EventHandler.AfterStreamStart) == 1 && s.open
 //@ ensures.counted[C16] s.metric.Rebalance == old(s.metric.Rebalance) + 1 || old(s.metric.Rebalance) == 9223372036854775807
 //@ modifies s.balancing, mutex(s.rebalanceLock), s.metric.Rebalance, s.streamFinishedWithCloseCh, s.streamFinishedWithEndEventCh, s.vbIDRange, s.rollbackMitigation, s.config.RollbackMitigation.Disabled, atomic(s.activeStreams), s.checkpoint, s.offsets, s.dirtyOffsets, s.anyDirtyOffset, s.observers, s.open, chan(s.finishStreamWithCloseCh), chan(s.finishStreamWithEndEventCh), calls(select.case), calls(models.EventHandler.BeforeStreamStart), calls(models.EventHandler.AfterStreamStart), calls(models.EventHandler.BeforeRebalanceEnd), calls(models.EventHandler.AfterRebalanceEnd), calls(stream.VBucketDiscovery.Get), calls(stream.Checkpoint.Load), calls("stream.(*stream).Open"), calls("stream.(*stream).openAllStreams"), calls("go:stream.(*stream).openAllStreams$1"), calls("go:stream.(*stream).wait"), calls(stream.Checkpoint.StartSchedule), calls(couchbase.RollbackMitigation.Start), calls("wrapper.(*ConcurrentSwissMap).Range")
 
